@@ -103,6 +103,8 @@ func (p *VarHeaderPostprocessor) substr(args []string) (func(in string) string, 
 		}
 	}
 	return func(in string) string {
+		// Closure is called for every response, so it must not modify captured arguments.
+		start, end := start, end
 		l := len(in)
 		if start < 0 {
 			start = l + start
@@ -110,11 +112,18 @@ func (p *VarHeaderPostprocessor) substr(args []string) (func(in string) string, 
 		if end <= 0 {
 			end = l + end
 		}
+		if start > end {
+			start, end = end, start
+		}
+		// Header value can be shorter than expected in config.
+		if start < 0 {
+			start = 0
+		}
 		if end > l {
 			end = l
 		}
 		if start > end {
-			start, end = end, start
+			start = end
 		}
 		return in[start:end]
 	}, nil
